@@ -138,6 +138,15 @@ fn export<'tcx>(tcx: TyCtxt<'tcx>) {
                 fields.push(("ty", J::Str(ty_str(ty))));
                 fields.push(("span", span_json(tcx, tcx.def_span(did))));
                 fields.push(("hir", hirx::body_json(tcx, ldid)));
+                // the compiler's own evaluation of integer constants (robust against `const fn` / arithmetic spellings)
+                if ty.is_integral() && matches!(kind, DefKind::Const { .. } | DefKind::AssocConst { .. }) {
+                    if let Ok(val) = tcx.const_eval_poly(did) {
+                        if let Some(si) = val.try_to_scalar_int() {
+                            let bits = si.to_bits(si.size());
+                            fields.push(("eval", J::Str(format!("{}", bits))));
+                        }
+                    }
+                }
                 consts.push((name, J::obj(fields)));
             }
             _ => {}
